@@ -89,7 +89,7 @@ def make_cfg(constants=None, spec=None, init="Init", next_="Next", invariants=()
 
 
 def run(module, cfg_text, mode="check", workers=None, timeout=600, simulate=None, depth=None, seed=None,
-        coverage=False, env=None, extra_modules=None, expect_violation=False, module_text=None,
+        coverage=False, env=None, extra_modules=None, expect_violation=False, module_text=None, vacuity=False, allow_untaken=(),
         deque=False, max_heap="6g"):
     """Run TLC. module: name of /verif/spec/<module>.tla (or module_text for a generated module that
     may EXTEND modules in spec/). Returns dict with states/distinct/generated, emitted records,
@@ -110,11 +110,12 @@ def run(module, cfg_text, mode="check", workers=None, timeout=600, simulate=None
             fh.write(cfg_text)
         if workers is None:
             workers = 1 if mode in ("emit", "trace") else (os.cpu_count() or 4)
-        cmd = ["java", "-XX:+UseParallelGC", f"-Xmx{max_heap}"]
+        cmd = ["java", "-XX:+UseParallelGC", f"-Xmx{max_heap}", "-Xss256m"]
         if deque:
             cmd.append("-Dtlc2.tool.queue.IStateQueue=StateDeque")
         cmd += ["-cp", JAR, "tlc2.TLC", "-workers", str(workers), "-metadir", os.path.join(scratch, "meta"),
                 "-noGenerateSpecTE", "-config", cfgp]
+        coverage = coverage or vacuity
         if coverage:
             cmd += ["-coverage", "1"]
         if mode == "simulate":
@@ -169,9 +170,17 @@ def run(module, cfg_text, mode="check", workers=None, timeout=600, simulate=None
             res["error_text"] = out[idx: idx + 6000]
         if coverage:
             res["coverage_summary"] = _parse_coverage(p.stdout)
+        if vacuity and res["violated"] is None:
+            # vacuity gate: an action of the next-state relation that was never taken means the properties were not exercised on it
+            if not res["coverage_summary"]:
+                raise MachineryError(f"TLC printed no action coverage for {module}")
+            untaken = sorted(a for a, v in res["coverage_summary"].items() if v["taken"] == 0 and a not in allow_untaken)
+            if untaken:
+                raise MachineryError(f"vacuity: actions never taken in {module}: {untaken}")
         hard_fail = (not res["ok"]) and res["violated"] is None and not res["deadlock"]
         if hard_fail or (res["violated"] is None and "Error:" in out and not res["deadlock"]):
-            raise MachineryError(f"TLC failed on {module} (rc={p.returncode}):\n{out[-3000:]}")
+            k = out.find("Error:")
+            raise MachineryError(f"TLC failed on {module} (rc={p.returncode}):\n{out[max(0, k - 300): k + 1500] if k >= 0 else ''}\n...\n{out[-1500:]}")
         if res["violated"] and not expect_violation:
             pass  # caller decides
         return res
